@@ -13,7 +13,7 @@ from . import build, evidence, known
 
 VERIF = build.VERIF
 RUNDIR = os.path.join(build.BUILD, "run")
-REPLAYS = os.path.join(VERIF, "replays")
+REPLAYS = os.path.join(VERIF, "replays") if not build.ALT else os.path.join(build.BUILD, "replays")
 CORES = min(16, os.cpu_count() or 16)
 
 
@@ -70,13 +70,17 @@ def plan(prop, **kw):
 
 plan("C02", jobs=lambda tier: seq_jobs("C02", tier), level="exploration", rule=SEQ_RULE, min_nontrivial=2000,
      technique="runtime monitor: reference-model oracle over recorded sequential histories")
-plan("C04", jobs=lambda tier: seq_jobs("C04", tier), level="exploration", rule=SEQ_RULE, min_nontrivial=2000,
+CONC_ADD = ("; plus the concurrent part: token-scheduler runs with 2-3 real threads (complete one-stall sweeps, bursts, random walks, PCT) and "
+            "free-running threads with injected delays, each judged at the quiescent end of the run (full query set vs the ownership "
+            "shadow, conservation after freeing everything) and at every successful allocation (reported class vs policy); their "
+            "distinct (scenario, schedule) runs with a cross-thread conflict are added to distinct_nontrivial")
+plan("C04", jobs=lambda tier: seq_plus_conc_jobs("C04", tier), level="exploration", rule=SEQ_RULE + CONC_ADD, min_nontrivial=2000,
      technique="runtime monitor: statistics/queries vs reference model at every quiescent point")
 plan("C09", jobs=lambda tier: seq_jobs("C09", tier), level="exploration", rule=SEQ_RULE, min_nontrivial=2000,
      technique="runtime monitor: panic/abort capture around every call of generated histories")
 plan("C10", jobs=lambda tier: seq_jobs("C10", tier), level="exploration", rule=SEQ_RULE, min_nontrivial=2000,
      technique="runtime monitor: reference-model oracle armed on the call following each drain")
-plan("C13", jobs=lambda tier: seq_jobs("C13", tier), level="exploration", rule=SEQ_RULE, min_nontrivial=2000,
+plan("C13", jobs=lambda tier: seq_plus_conc_jobs("C13", tier), level="exploration", rule=SEQ_RULE + CONC_ADD, min_nontrivial=2000,
      technique="runtime monitor: reported class checked against the configured policy function")
 plan("C14", jobs=lambda tier: seq_jobs("C14", tier), level="exploration", rule=SEQ_RULE, min_nontrivial=2000,
      technique="runtime monitor: arithmetic invariant on tree_stats() after every call")
@@ -164,22 +168,52 @@ SCHED_RULE = ("2-3 real threads on one real allocator; the interleaving is injec
               "same word back to back with at least one write (capped per shard; conservative)")
 
 
-def sched_jobs(prop, tier, quick_s=40, thorough_s=600):
+def free_jobs(prop, tier, shards, quick_s=40, thorough_s=600):
+    """free-running threads (no token; pseudo-random delays injected at the hook; ownership tags)"""
     if tier == "quick":
-        return [job("sched", prop, "default", "vdev", shards=8, budget_s=quick_s),
-                job("sched", prop, "default", "vrel", shards=4, budget_s=quick_s),
-                job("sched", prop, "th2", "vdev", shards=4, budget_s=quick_s)]
+        return [job("free", prop, "default", "vdev", shards=shards, budget_s=quick_s, args=["--iters", "1500"])]
+    return [job("free", prop, "default", "vdev", shards=shards, budget_s=thorough_s, args=["--iters", "3000"]),
+            job("free", prop, "default", "vrel", shards=1, budget_s=thorough_s, args=["--iters", "3000"]),
+            job("free", prop, "th2", "vdev", shards=1, budget_s=thorough_s, args=["--iters", "3000"])]
+
+
+def sched_jobs(prop, tier, quick_s=40, thorough_s=600, free=0):
+    if tier == "quick":
+        js = [job("sched", prop, "default", "vdev", shards=8 - free, budget_s=quick_s),
+              job("sched", prop, "default", "vrel", shards=4, budget_s=quick_s),
+              job("sched", prop, "th2", "vdev", shards=4, budget_s=quick_s)]
+        if free:
+            js += free_jobs(prop, tier, free, quick_s, thorough_s)
+        return js
     js = [job("sched", prop, "default", "vdev", shards=6, budget_s=thorough_s, args=["--thorough"]),
           job("sched", prop, "default", "vrel", shards=3, budget_s=thorough_s, args=["--thorough"]),
           job("sched", prop, "th2", "vdev", shards=2, budget_s=thorough_s, args=["--thorough"])]
     for g in ("th1", "th8", "16k", "16k_th2"):
         js.append(job("sched", prop, g, "vdev", shards=1, budget_s=thorough_s, args=["--thorough"]))
+    if free:
+        js += free_jobs(prop, tier, free + 1, quick_s, thorough_s)
     return js
 
 
-plan("C01", jobs=lambda tier: sched_jobs("C01", tier), level="exploration", rule=SCHED_RULE, min_nontrivial=500,
+def seq_plus_conc_jobs(prop, tier):
+    """sequential histories plus the concurrent part of the property: token-scheduler runs (quiescent
+    end-of-run comparison / policy check) and free-running threads"""
+    js = seq_jobs(prop, tier)
+    if tier == "quick":
+        js += [job("sched", prop, "default", "vdev", shards=8, budget_s=25),
+               job("sched", prop, "th2", "vdev", shards=3, budget_s=25)]
+        js += free_jobs(prop, tier, 5, quick_s=25)
+    else:
+        js += [job("sched", prop, "default", "vdev", shards=8, budget_s=300, args=["--thorough"]),
+               job("sched", prop, "default", "vrel", shards=2, budget_s=300, args=["--thorough"]),
+               job("sched", prop, "th2", "vdev", shards=2, budget_s=300, args=["--thorough"])]
+        js += free_jobs(prop, tier, 2, thorough_s=300)
+    return js
+
+
+plan("C01", jobs=lambda tier: sched_jobs("C01", tier, free=3), level="exploration", rule=SCHED_RULE, min_nontrivial=500,
      technique="runtime monitor: ownership shadow over schedules injected at the atomic hook (stall sweep, PCT, random walk)")
-plan("C03", jobs=lambda tier: sched_jobs("C03", tier), level="exploration", rule=SCHED_RULE, min_nontrivial=500,
+plan("C03", jobs=lambda tier: sched_jobs("C03", tier, free=3), level="exploration", rule=SCHED_RULE, min_nontrivial=500,
      technique="runtime monitor: panic capture + ownership shadow over injected schedules")
 def c05_jobs(tier):
     if tier == "quick":
